@@ -32,20 +32,46 @@ Definition display_char (q : option N) (c : N) : list N :=
   | None => if is_private_use c then 92 :: hex_of_N c else [c]
   end.
 
-Definition css_display (s : cssstring) : list N :=
-  let q := quote_char (s_q s) in
-  let body := flat_map (display_char q) (s_val s) in
-  match q with
-  | Some qc => qc :: body ++ [qc]
-  | None => body
-  end.
-
 (* char::to_digit(16) *)
 Definition hex_digit (c : N) : option N :=
   if (48 <=? c) && (c <=? 57) then Some (c - 48)
   else if (97 <=? c) && (c <=? 102) then Some (c - 87)
   else if (65 <=? c) && (c <=? 70) then Some (c - 55)
   else None.
+
+(* the private-use arm of Display: after the hex escape, a space is written when the next character
+   is an ASCII hex digit or a space (it would otherwise be read as part of the escape) *)
+Definition needs_terminator (next : list N) : bool :=
+  match next with
+  | n :: _ => (match hex_digit n with Some _ => true | None => false end) || (n =? 32)
+  | [] => false
+  end.
+Definition is_own_quote (q : option N) (c : N) : bool :=
+  match q with Some qc => c =? qc | None => false end.
+Definition pu_terminator (q : option N) (c : N) (next : list N) : list N :=
+  if negb (is_own_quote q c) && is_private_use c && needs_terminator next then [32] else [].
+
+Fixpoint display_body (q : option N) (l : list N) : list N :=
+  match l with
+  | [] => []
+  | c :: r => display_char q c ++ pu_terminator q c r ++ display_body q r
+  end.
+
+Definition css_display (s : cssstring) : list N :=
+  let q := quote_char (s_q s) in
+  let body := display_body q (s_val s) in
+  match q with
+  | Some qc => qc :: body ++ [qc]
+  | None => body
+  end.
+
+(* without private-use characters the body is the character-wise image *)
+Lemma display_body_flat q v :
+  existsb is_private_use v = false -> display_body q v = flat_map (display_char q) v.
+Proof.
+  induction v as [|c r IH]; [reflexivity|]. cbn [existsb]. intros H. apply orb_false_iff in H as [Hc Hr].
+  cbn [display_body flat_map]. unfold pu_terminator. rewrite Hc, andb_false_r. cbn [andb app]. now rewrite (IH Hr).
+Qed.
 
 (* char::try_from(u32).unwrap_or(REPLACEMENT_CHARACTER) *)
 Definition char_of_u32 (v : N) : N :=
